@@ -8,6 +8,9 @@ import (
 
 	"verifh/mon"
 
+	"0chain.net/chaincore/block"
+	cstate "0chain.net/chaincore/chain/state"
+	"0chain.net/chaincore/node"
 	"0chain.net/smartcontract/minersc"
 	"0chain.net/smartcontract/provider"
 	"github.com/0chain/common/core/currency"
@@ -195,7 +198,8 @@ func c39RandID(r *mon.Rand) string {
 func runC39(run *mon.Run, thorough bool) {
 	rnd := mon.NewRand(mon.Seed()).Fork("C39")
 	run.Assume("the required number of previous-set members is ceil(x_percent * min(limit, candidates)) capped by the previous members present (the formula of the contract; x_percent in [0,1])")
-	run.Assume("reduceShardersList/reduceNodes (which read the previous magic block from a state context and call reduce) are not driven; reduce itself is")
+	run.Assume("reduceShardersList (which reads the previous magic block from a state context and calls reduce) is not driven; reduce itself and DKGMinerNodes.reduceNodes are")
+	c39dkgPart(run, mon.NewRand(mon.Seed()).Fork("C39-dkg"), thorough)
 
 	nSeeds := 1500
 	nRandom := 260
@@ -448,5 +452,246 @@ func runC39(run *mon.Run, thorough bool) {
 			}
 			run.Sample(map[string]interface{}{"layout": l.String(), "selected_counts_over_seeds": freq, "seeds": nSeeds})
 		}
+	}
+}
+
+// ---------------------------------------------------------------------------------------------------------------------
+// The selection as the contract runs it for miners: DKGMinerNodes.reduceNodes (widdleDKGMinersForShare with final=false,
+// createMagicBlockForWait and adjustViewChange with final=true). The DKG miners list is created at DKG start with
+// calculateTKN, which copies min_n / max_n / percentages of that moment into the list; the owner may change max_n while
+// the DKG is running, candidates may drop out between the phases. Whatever happened before, the final step has to return
+// exactly min(max_n in force, candidates) nodes, chosen by the C39 rules.
+
+type c39dkgCase struct {
+	Cands      []c39Cand `json:"candidates_at_selection"`
+	AtStart    int       `json:"candidates_at_dkg_start"`
+	MaxNStart  int       `json:"max_n_at_dkg_start"`
+	MaxNLive   int       `json:"max_n_at_selection"`
+	MinN       int       `json:"min_n"`
+	XP         float64   `json:"x_percent"`
+	Final      bool      `json:"final"`
+	Seed       int64     `json:"previous_magic_block_seed"`
+	Stored     bool      `json:"list_stored_and_read_back"`
+	PrevFromGN bool      `json:"previous_magic_block_kept_in_global_node"`
+	Departed   int       `json:"previous_members_not_among_candidates"`
+}
+
+func (k c39dkgCase) String() string {
+	return fmt.Sprintf("DKG started with max_n=%d and %d candidates, max_n=%d at the selection (final=%v), %v",
+		k.MaxNStart, k.AtStart, k.MaxNLive, k.Final, c39Layout{Cands: k.Cands, Limit: k.MaxNLive, XP: k.XP})
+}
+
+// c39dkgRun drives the real code for one case; returns the ids left in the DKG list and the error of reduceNodes.
+func c39dkgRun(k c39dkgCase, extra []c39Cand) (map[string]bool, error) {
+	gn := &minersc.GlobalNode{MaxN: k.MaxNStart, MinN: k.MinN, TPercent: 0.66, KPercent: 0.75, XPercent: k.XP}
+	// previous magic block: the previous members among the candidates and some that left
+	prevMB := block.NewMagicBlock()
+	prevMB.Miners = node.NewPool(node.NodeTypeMiner)
+	prevMB.Sharders = node.NewPool(node.NodeTypeSharder)
+	all := append(append([]c39Cand{}, k.Cands...), extra...)
+	for _, c := range all {
+		if c.Prev {
+			prevMB.Miners.NodesMap[c.ID] = node.Provider()
+		}
+	}
+	for i := 0; i < k.Departed; i++ {
+		prevMB.Miners.NodesMap[fmt.Sprintf("%064x", i+1)] = node.Provider()
+	}
+	lfmb := &block.Block{}
+	lfmb.MagicBlock = prevMB
+	lfmb.RoundRandomSeed = k.Seed
+	balances := cstate.NewStateContext(nil, nil, nil, nil, func() *block.Block { return lfmb }, nil, nil, nil, nil)
+	if k.PrevFromGN {
+		gn.PrevMagicBlock = prevMB
+	}
+	// DKG start: every candidate of that moment, limits copied into the list
+	sns := minersc.NewSimpleNodes()
+	for _, c := range all {
+		sns[c.ID] = &minersc.SimpleNode{Provider: provider.Provider{ID: c.ID}, TotalStaked: currency.Coin(c.Stake)}
+	}
+	d := minersc.VerifUnitchainDKGStart(gn, len(all), sns)
+	if k.Stored { // the list lives in the state between the phases
+		raw := d.Encode()
+		d = minersc.NewDKGMinerNodes()
+		if err := d.Decode(raw); err != nil {
+			panic(fmt.Sprintf("DKGMinerNodes decode: %v", err))
+		}
+	}
+	// candidates that did not finish a phase are dropped by the contract before the selection
+	for _, c := range extra {
+		delete(d.SimpleNodes, c.ID)
+	}
+	// the owner's settings update in between
+	gn.MaxN = k.MaxNLive
+	err := minersc.VerifUnitchainReduceNodes(d, k.Final, gn, balances)
+	out := map[string]bool{}
+	for id, sn := range d.SimpleNodes {
+		if sn == nil || sn.ID != id {
+			out["CORRUPT:"+id] = true
+			continue
+		}
+		out[id] = true
+	}
+	return out, err
+}
+
+func c39dkgRel(a, b int) string {
+	switch {
+	case a < b:
+		return "<"
+	case a > b:
+		return ">"
+	}
+	return "="
+}
+
+func c39dkgPart(run *mon.Run, rnd *mon.Rand, thorough bool) {
+	run.Assume("the limit of a miner selection is the max_n in force when the selection is made (the value the contract passes to the selection), not the copy taken into the DKG list at DKG start; x_percent is not changed during a DKG here")
+	xps := []float64{0, 0.25, 0.35, 0.5, 0.7, 1}
+	judge := func(k c39dkgCase, extra []c39Cand) {
+		run.Eval(1)
+		n := len(k.Cands)
+		hasPrev := false
+		for _, c := range k.Cands {
+			hasPrev = hasPrev || c.Prev
+		}
+		out, err := c39dkgRun(k, extra)
+		replay := map[string]interface{}{"case": k, "dropped_before_selection": extra, "left_in_list": keysOf(out)}
+		if n < k.MinN || !hasPrev {
+			// the contract refuses (too few miners / nobody of the previous set): no selection is made
+			run.Count("dkg_obs_refused_no_selection", 1)
+			if err == nil {
+				run.Count("dkg_obs_refusal_expected_but_accepted", 1)
+			}
+			return
+		}
+		if err != nil {
+			run.Count("dkg_obs_unexpected_refusal", 1)
+			return
+		}
+		cls := fmt.Sprintf("dkg final=%v max_n live%sstart, n%slive n%sstart dropped=%v", k.Final, c39dkgRel(k.MaxNLive, k.MaxNStart), c39dkgRel(n, k.MaxNLive), c39dkgRel(n, k.MaxNStart), len(extra) > 0)
+		if !k.Final {
+			// the check of the share phase selects nobody: every candidate stays
+			run.Count("dkg_nonfinal_keeps_candidates", 1)
+			if len(out) != n {
+				violate(run, "C39:non-final-check-changes-candidates", fmt.Sprintf("%v: %d of %d candidates left after the non-final check", k, len(out), n), replay)
+			}
+			run.Distinct(cls)
+			return
+		}
+		l := c39Layout{Cands: k.Cands, Limit: k.MaxNLive, XP: k.XP}
+		ref := c39Reference(l)
+		run.Count("dkg_size_exact", 1)
+		switch {
+		case k.MaxNLive < k.MaxNStart && n > k.MaxNLive && n <= k.MaxNStart:
+			run.Count("dkg_max_n_lowered_candidates_between_the_two_limits", 1)
+		case k.MaxNLive < k.MaxNStart:
+			run.Count("dkg_max_n_lowered_other", 1)
+		case k.MaxNLive > k.MaxNStart && n > k.MaxNStart && n <= k.MaxNLive:
+			run.Count("dkg_max_n_raised_candidates_between_the_two_limits", 1)
+		case k.MaxNLive > k.MaxNStart:
+			run.Count("dkg_max_n_raised_other", 1)
+		default:
+			run.Count("dkg_max_n_unchanged", 1)
+		}
+		if len(out) != ref.size {
+			violate(run, "C39:wrong-size", fmt.Sprintf("%v: reduceNodes left %d miners, expected min(max_n in force, candidates) = min(%d, %d) = %d", k, len(out), k.MaxNLive, n, ref.size), replay)
+		}
+		c39JudgeOne(run, l, ref, k.Seed, out, len(out))
+		// identical for identical inputs
+		run.Count("dkg_deterministic_same_input", 1)
+		k2 := k
+		k2.Cands = append([]c39Cand{}, k.Cands...)
+		rnd.Shuffle(len(k2.Cands), func(i, j int) { k2.Cands[i], k2.Cands[j] = k2.Cands[j], k2.Cands[i] })
+		if out2, _ := c39dkgRun(k2, extra); !sameSet(out, out2) {
+			violate(run, "C39:same-input-different-output", fmt.Sprintf("%v: %v vs %v", k, keysOf(out), keysOf(out2)), replay)
+		}
+		run.Distinct(cls + fmt.Sprintf(" req=%d", ref.req))
+	}
+	mkCands := func(n, levels int, nPrev int) []c39Cand {
+		cs := make([]c39Cand, n)
+		for i := range cs {
+			cs[i] = c39Cand{c39RandID(rnd), int64(1+rnd.Intn(levels)) * 1000, false}
+		}
+		for _, i := range randPerm(rnd, n) {
+			if nPrev > 0 {
+				cs[i].Prev = true
+				nPrev--
+			}
+		}
+		return cs
+	}
+	// systematic: every (max_n at start, max_n at selection, candidates) in a small box, final and not, distinct stakes and ties
+	box := 9
+	if thorough {
+		box = 14
+	}
+	sampled := 0
+	for start := 1; start <= box; start++ {
+		for live := 1; live <= box; live++ {
+			checkpoint(run)
+			for n := 1; n <= box+2; n++ {
+				for variant := 0; variant < 4; variant++ {
+					levels := 100000 // all stakes distinct (almost surely)
+					if variant%2 == 1 {
+						levels = 3
+					}
+					nPrev := 1 + rnd.Intn(n)
+					if nPrev > 4 && rnd.Chance(0.7) {
+						nPrev = 1 + rnd.Intn(4)
+					}
+					k := c39dkgCase{Cands: mkCands(n, levels, nPrev), MaxNStart: start, MaxNLive: live, MinN: 1, XP: xps[rnd.Intn(len(xps))],
+						Final: variant < 3, Seed: int64(rnd.U64()), Stored: rnd.Chance(0.5), PrevFromGN: rnd.Chance(0.5), Departed: rnd.Intn(3)}
+					var extra []c39Cand
+					if rnd.Chance(0.4) {
+						extra = mkCands(1+rnd.Intn(4), levels, rnd.Intn(2))
+					}
+					k.AtStart = n + len(extra)
+					judge(k, extra)
+					if sampled < 2 && k.Final && live < start && n > live && n <= start && n >= 4 {
+						sampled++
+						out, _ := c39dkgRun(k, extra)
+						run.Sample(map[string]interface{}{"dkg_case": k.String(), "selected": keysOf(out)})
+					}
+				}
+			}
+		}
+	}
+	// seeded larger cases: limits and candidate counts around each other, refusals included
+	nRandom := 1500
+	if thorough {
+		nRandom = 20000
+	}
+	for i := 0; i < nRandom; i++ {
+		checkpoint(run)
+		start := 2 + rnd.Intn(30)
+		live := start
+		switch rnd.Intn(3) {
+		case 0:
+			live = 1 + rnd.Intn(start)
+		case 1:
+			live = start + rnd.Intn(10)
+		}
+		anchors := []int{live - 1, live, live + 1, start - 1, start, start + 1, (live + start) / 2, start + live, 1 + rnd.Intn(45)}
+		n := anchors[rnd.Intn(len(anchors))]
+		if n < 1 {
+			n = 1
+		}
+		levels := 1 + rnd.Intn(5)
+		if rnd.Chance(0.3) {
+			levels = 100000
+		}
+		nPrev := rnd.Intn(n + 1)
+		if rnd.Chance(0.9) && nPrev == 0 {
+			nPrev = 1
+		}
+		k := c39dkgCase{Cands: mkCands(n, levels, nPrev), MaxNStart: start, MaxNLive: live, MinN: 1 + rnd.Intn(3), XP: xps[rnd.Intn(len(xps))],
+			Final: rnd.Chance(0.8), Seed: int64(rnd.U64()), Stored: rnd.Chance(0.5), PrevFromGN: rnd.Chance(0.5), Departed: rnd.Intn(4)}
+		var extra []c39Cand
+		if rnd.Chance(0.4) {
+			extra = mkCands(1+rnd.Intn(6), levels, rnd.Intn(3))
+		}
+		k.AtStart = n + len(extra)
+		judge(k, extra)
 	}
 }
